@@ -137,6 +137,45 @@ example : (match Wire.splitSig goodMapMsg with | .unmodelled _ => true | .ok _ =
 example : (Sign.verifyBytes Toy.prims knownMajor anyRing goodMapMsg).toOption.map
     (fun r => (r.released, r.err)) = some ([0x41], none) := by decide +kernel
 
+/-! ## the audit's inputs (repair R1), kernel-evaluated on the model
+
+  A genuine (toy-signed) V2 message, one final packet `94 c3 <sig> "A" <extra>`
+  with a reserved extra element nested `d` arrays deep (`91^d 00`): go-codec's depth
+  budget inside a V2 block is 97 — depth 97 is accepted, depth 98 is a decode error
+  and NOTHING is released (Go: `max depth exceeded`).  The spec-shaped reader
+  accepts both; the front end (Codec first) follows go-codec. -/
+
+def deepMsg (d : Nat) : Bytes :=
+  headerPacket goodHeader ++ [0x94, 0xc3] ++
+    Msgpack.encBin (Toy.prims.sign [1]
+      ((attachedSignatureInput Toy.prims v2 (Toy.prims.hash goodHeader) [0x41] 0 true).toOption.getD [])) ++
+    [0xc4, 0x01, 0x41] ++ List.replicate d 0x91 ++ [0x00]
+
+example : (Sign.verifyBytes Toy.prims knownMajor anyRing (deepMsg 97)).toOption.map
+    (fun r => (r.released, r.err)) = some ([0x41], none) := by decide +kernel
+
+example : (Sign.verifyBytes Toy.prims knownMajor anyRing (deepMsg 98)).toOption.map
+    (fun r => (r.released, r.err)) = some ([], some .decodeError) := by decide +kernel
+
+example : (match Wire.splitSig (deepMsg 98) with | .ok x => x.2.items.length == 1 && x.2.tail == .eof | _ => false) = true := by
+  decide +kernel
+
+/-- read ORDER (finding #2): `93 c3 05 c6 00001000 01 02` — an integer where the
+    signature is expected, then a truncated bin32: go-codec reports the wrong type
+    (decode error), not the truncation -/
+example : (Sign.verifyBytes Toy.prims knownMajor anyRing
+      (headerPacket goodHeader ++ [0x93, 0xc3, 0x05, 0xc6, 0x00, 0x00, 0x10, 0x00, 0x01, 0x02])).toOption.map
+    (fun r => (r.released, r.err)) = some ([], some .decodeError) := by decide +kernel
+
+/-- … while the same truncated object BEHIND the final packet is read by
+    `assertEndOfStream` generically: `io.EOF`, a clean end — Go accepts the message
+    (`Front.settle`) -/
+example : (Sign.verifyBytes Toy.prims knownMajor anyRing (deepMsg 3 ++ [0xc4, 0x05, 0x01])).toOption.map
+    (fun r => (r.released, r.err)) = some ([0x41], none) := by decide +kernel
+
+example : (Sign.verifyBytes Toy.prims knownMajor anyRing (deepMsg 3 ++ [0x05])).toOption.map
+    (fun r => (r.released, r.err)) = some ([0x41], some .trailingGarbage) := by decide +kernel
+
 example : Toy.prims.Lawful := Toy.lawful
 
 end Saltpack.Props.C06
